@@ -191,6 +191,11 @@ func (msg MsgInitiateTokenDeposit) Validate(ac address.Codec) error {
 		return ErrInvalidAmount
 	}
 
+	// the withdrawal hash commits to a 64-bit amount, so a larger deposit could never be refunded
+	if !msg.Amount.Amount.IsUint64() {
+		return ErrInvalidAmount
+	}
+
 	if msg.BridgeId == 0 {
 		return ErrInvalidBridgeId
 	}
@@ -244,7 +249,7 @@ func (msg MsgFinalizeTokenWithdrawal) Validate(ac address.Codec) error {
 		return err
 	}
 
-	if !msg.Amount.IsValid() || msg.Amount.IsZero() {
+	if !msg.Amount.IsValid() || msg.Amount.IsZero() || !msg.Amount.Amount.IsUint64() {
 		return ErrInvalidAmount
 	}
 
